@@ -25,7 +25,14 @@ job() {
   local prop="$1" seed="$2"
   INSTFLAGS=($INSTFLAGS_STR)
   a="$(one "$prop" "$seed" 3 1)"; b="$(one "$prop" "$seed" 7 4)"; c="$(one "$prop" "$seed" 16 16)"
-  if [ -z "$a" ] || [ "$a" != "$b" ] || [ "$a" != "$c" ]; then
+  if [ -z "$a" ] || [ -z "$b" ] || [ -z "$c" ]; then
+    # a run that produced no summary line (killed, out of memory, exit 2) is machinery trouble, not a divergence: once more
+    [ -z "$a" ] && a="$(one "$prop" "$seed" 3 1)"; [ -z "$b" ] && b="$(one "$prop" "$seed" 7 4)"; [ -z "$c" ] && c="$(one "$prop" "$seed" 16 16)"
+    if [ -z "$a" ] || [ -z "$b" ] || [ -z "$c" ]; then
+      echo "RUNFAIL prop=$prop seed=$seed"; echo "  w=3  g=1 : $a"; echo "  w=7  g=4 : $b"; echo "  w=16 g=16: $c"; return 1
+    fi
+  fi
+  if [ "$a" != "$b" ] || [ "$a" != "$c" ]; then
     echo "DIVERGENCE prop=$prop seed=$seed"; echo "  w=3  g=1 : $a"; echo "  w=7  g=4 : $b"; echo "  w=16 g=16: $c"; return 1
   fi
   echo "same prop=$prop seed=$seed $a"
@@ -34,8 +41,9 @@ export -f job
 : > "$S/selftest.out"
 for seed in $(seq 1 "$N"); do for prop in C17 C18 C19 C20; do echo "$prop $seed"; done; done \
   | xargs -P 6 -L 1 bash -c 'job $0 $1' >> "$S/selftest.out" 2>&1
-same=$(grep -c '^same' "$S/selftest.out"); div=$(grep -c '^DIVERGENCE' "$S/selftest.out")
-grep -A3 '^DIVERGENCE' "$S/selftest.out" | head -40
-echo "selftest: $same (property, seed) pairs identical across 3 process trees (workers 3/7/16, GOMAXPROCS 1/4/16); $div divergent"
-[ "$div" = 0 ] && [ "$same" -gt 0 ] || exit 3
+same=$(grep -c '^same' "$S/selftest.out"); div=$(grep -c '^DIVERGENCE' "$S/selftest.out"); rf=$(grep -c '^RUNFAIL' "$S/selftest.out")
+grep -A3 -E '^DIVERGENCE|^RUNFAIL' "$S/selftest.out" | head -40
+echo "selftest: $same (property, seed) pairs identical across 3 process trees (workers 3/7/16, GOMAXPROCS 1/4/16); $div divergent; $rf without a result (machinery trouble)"
+[ "$div" = 0 ] || exit 3
+[ "$rf" = 0 ] && [ "$same" -gt 0 ] || exit 2
 exit 0
